@@ -53,6 +53,14 @@ def plan(tier, seed):
     for t in (S8, S16, U8):
         add(sc(S32, -3, 10), t, 'r10|int:-3|builtin_%s' % short(t))
         add(t, sc(S16, -5, 10), 'r10|builtin_%s|short:-5' % short(t))
+    # elastic_integer reps whose digit counts sit on storage-word boundaries (the result of -x, x+y, x*y moves to the next word)
+    def el_(d, n):
+        return 'cnl::elastic_integer<%d, %s>' % (d, n)
+    for (d1, n1, e1, d2, n2, e2) in [(32, 'unsigned', -8, 32, 'unsigned', 3), (64, 'unsigned', 0, 31, 'int', -5), (16, 'unsigned', 4, 8, 'unsigned', 4),
+                                     (8, 'unsigned', 2, 63, 'int', -2), (31, 'int', 0, 32, 'unsigned', -16), (63, 'int', -1, 64, 'unsigned', -1),
+                                     (32, 'unsigned char', 0, 15, 'signed char', 0), (7, 'signed char', -3, 64, 'unsigned', 1),
+                                     (33, 'unsigned', -1, 30, 'unsigned', 5), (16, 'unsigned', 0, 16, 'int', 0)]:
+        add(sc(el_(d1, n1), e1), sc(el_(d2, n2), e2), 'elastic%d_%s:%d|elastic%d_%s:%d' % (d1, short(n1), e1, d2, short(n2), e2))
     if not quick:
         for lr, rr, el, er in [(S128, S128, -70, -64), (U128, S64, 60, 70), (S128, S32, -40, -10), (S64, S64, -70, -40), (U64, U64, 40, 70),
                                (S64, S128, 0, 0), (U128, U128, -5, -5)]:
